@@ -117,6 +117,7 @@ HAND_WRITTEN = [
     "select sum(a) over (partition by b order by c rows between 1 preceding and current row) from t",
     "with w (x, y) as (select 1, 2) select x from w where y in ((select 3))", "select count(distinct a), coalesce(b, (c)) from (select a, b, c from t) s group by (b)",
     "select * from a join (b join c on p = q) on r = s", "select a from t where b between (1) and (2) and c like concat('x', (d))",
+    "select a from t pivot ((x) for y in (1, 2)) p", "select a from t pivot (sum(x) s, (count(z)) for y in ('u', 'v')) p", "select a from t unpivot ((x) for y in (b, c)) p",
 ]
 
 
